@@ -284,11 +284,11 @@ def shard(shard, nshards, rng, tier, extra):
                 c['steps'][0]['route'] = route
                 cases.append(c)
     run_cases(cases, res, 'A:all-codes-small-source')
-    cases = [gen_case(rng, tier) for _ in range((6000 if tier == 'quick' else 150000) // nshards)]
+    cases = [gen_case(rng, tier) for _ in range((18000 if tier == 'quick' else 150000) // nshards)]
     run_cases(cases, res, 'B:random-pairs-routes')
-    cases = [extend_chain(rng, gen_case(rng, tier), rng.randint(1, 5)) for _ in range((1200 if tier == 'quick' else 30000) // nshards)]
+    cases = [extend_chain(rng, gen_case(rng, tier), rng.randint(1, 5)) for _ in range((3600 if tier == 'quick' else 30000) // nshards)]
     run_cases(cases, res, 'C:chains')
-    run_complex_conv(complex_cases(rng, (500 if tier == 'quick' else 12000) // nshards), res)
+    run_complex_conv(complex_cases(rng, (1500 if tier == 'quick' else 12000) // nshards), res)
     res.exhaustive = True
     return res
 
